@@ -18,7 +18,7 @@ RULE = (
 )
 ASSUMPTIONS = ["three creators, four files, two trees, two patterns", "default hash gate policy"]
 
-PATHS = ["a", "b", "d/c", "d/e"]
+PATHS = ["a", "b", "d/c", "d/e", "d"]  # "d": a file named like the tree d/ without its separator
 CREATORS = ["./plan.py", "c1", "c2"]
 PREFIX = [("start", ()), ("req", "./plan.py", opx.step_req("c1")), ("req", "./plan.py", opx.step_req("c2"))]
 
@@ -27,6 +27,9 @@ def declarations():
     """(tag, claim, request builder(creator index)) for every declaration of the menu."""
     out = []
     for p in PATHS:
+        if p == "d":
+            # on disk d is a directory: only product claims make sense for a file of that name
+            continue
         out.append((f"static {p}", ("static", p), lambda ci, p=p: ("declare_static", "$job", [], [p], [])))
     for t in ("d/", "d/s/"):
         out.append((f"tree {t}", ("tree", t), lambda ci, t=t: ("declare_static", "$job", [t], [], [])))
@@ -35,6 +38,12 @@ def declarations():
                     lambda ci, pat=pat: ("declare_static", "$job", [], [], [(pat, "$glob")])))
     out.append(("glob d/*", ("glob", "d/*"), lambda ci: ("register_glob", "$job", "d/*", {}, "$glob")))
     for p in PATHS:
+        if p == "d":
+            out.append((f"step out {p}", ("out", p), lambda ci, p=p: opx.step_req(f"o{ci}{p}", [], [p])))
+            out.append((f"step vol {p}", ("vol", p), lambda ci, p=p: opx.step_req(f"v{ci}{p}", [], [], [p])))
+            out.append((f"amend out {p}", ("out", p), lambda ci, p=p: ("amend_step", "$job", [], [], [p], [])))
+            out.append((f"amend vol {p}", ("vol", p), lambda ci, p=p: ("amend_step", "$job", [], [], [], [p])))
+            continue
         out.append((f"step inp {p}", ("inp", p), lambda ci, p=p: opx.step_req(f"i{ci}{p}", [p])))
         out.append((f"step out {p}", ("out", p), lambda ci, p=p: opx.step_req(f"o{ci}{p}", [], [p])))
         out.append((f"step vol {p}", ("vol", p), lambda ci, p=p: opx.step_req(f"v{ci}{p}", [], [], [p])))
